@@ -29,7 +29,7 @@ func init() {
 		Level: "model_checking",
 		Rule: "all decimal int spellings <=4 chars over {0,1,7,9,_} + spellings around 2^63/2^64/10^19; 0x/0o/0b spellings <=3 digits + widest values; exponent ints M e K (K in [-3,20]) and with extreme exponents (21 .. beyond int64; zero mantissas, non-representable products, exact quotients of mantissas with up to 3002 digits); floats D.D (<=3+3 digits) and exponent floats incl. extreme magnitudes; " +
 			"every escape \\c for c in 0x20..0x7e, \\x/\\u/octal samples, embedded quotes, trailing backslash, char and raw strings; every identifier <=4 (thorough 5) chars over {a,Z,7,_,?,!} matching the documented pattern, every keyword-prefixed/suffixed name and long names of every length 2^k-1, 2^k, 2^k+1 up to 1025 (thorough 4097) in 4 spellings, each as variable, property, symbol, called function, symbol function (sym?) and listed key; all 475254 lower-case names of <=4 letters, 262144 six-letter and 531441 twelve-letter names over small alphabets and 126 long names sharing prefixes of 31..4097 bytes have pairwise different symbol keys; 11 script files run by the real command-line binary (raw strings spanning LF / CRLF / CR line breaks keep every byte), and variables/properties named by such pairs stay apart, " +
-			"each used as variable, property, symbol and call; oracle = math/big, strconv.ParseFloat, escape table; non-representable literals must be rejected; non-trivial = every case; distinct = distinct spelling x use; round 7: A reserved word directly followed by ? or ! (if?, else! ...) is generated as a name as well (5 known-finding keys).",
+			"each used as variable, property, symbol and call; oracle = math/big, strconv.ParseFloat, escape table; non-representable literals must be rejected; non-trivial = every case; distinct = distinct spelling x use; round 7: A reserved word directly followed by ? or ! (if?, else! ...) is generated as a name as well (5 known-finding keys).; round 8: Hex literals use every digit class (0189abefABEF); exponent ints have 16-19 digit mantissas; literals spanning lines are entered in the REPL's multi-line mode.",
 		Assumptions: []string{
 			"exponent-int spellings that do not denote an integer (1e-3) are a don't-care",
 			"an undefined escape may be rejected or kept verbatim; a defined one is decoded like Go's strconv.Unquote",
